@@ -13,10 +13,6 @@ From SCC Require Import Base.Sexp Lang.SynUtil Lang.FunSyn Model.Check Sem.FunTy
 Import ListNotations.
 Open Scope list_scope.
 
-(* ---------- names in contexts ---------- *)
-Definition ctx_names_ok (c : fctx) : bool := forallb (fun b => ty_names_ok (fbty b)) c.
-Definition oty_names_ok (o : option fty) : bool := match o with None => true | Some t => ty_names_ok t end.
-
 (* ---------- substitution = positional instantiation ---------- *)
 Lemma fold_ainsert_fresh : forall {V} (l acc : amap V),
   NoDup (map fst acc ++ map fst l) ->
@@ -279,6 +275,11 @@ Section Poly.
     List.length targs = List.length (td_params td) /\ forallb (wf_ty ts) targs = true.
   Definition sub_of (td : tdecl) (targs : list fty) : amap fty := mk_mappings (td_params td) targs.
 
+  Definition has_inst_p (st : symtab) (t : fty) : Prop :=
+    match t with FI64 => True | FDecl n a => ahas (st_types st) (n ++ print_targs a)%string = true end.
+  Lemma has_inst_grows : forall st st' t, grows st st' -> has_inst_p st t -> has_inst_p st' t.
+  Proof. intros st st' [|n a] G H; [exact I|]. simpl in *. apply G. exact H. Qed.
+
   Record pinv (st : symtab) : Prop := {
     pi_types : forall key pol targs xs, aget (st_types st) key = Some (pol, targs, xs) ->
       exists td, In td ts /\ key = (td_name td ++ print_targs targs)%string /\ td_pol td = pol
@@ -297,6 +298,8 @@ Section Poly.
       | FData => ahas (st_ctors st) (x ++ print_targs targs)%string = true
       | FCodata => ahas (st_dtors st) (x ++ print_targs targs)%string = true
       end;
+    (* closure under type arguments: the arguments of an instance are instances *)
+    pi_targs : forall key pol targs xs, aget (st_types st) key = Some (pol, targs, xs) -> Forall (has_inst_p st) targs;
     pi_nodup : NoDup (map fst (st_types st))
   }.
 
@@ -305,8 +308,6 @@ Section Poly.
     intros st Ht Hc Hd. constructor; intros; rewrite ?Ht, ?Hc, ?Hd in *; simpl in *; try discriminate. constructor.
   Qed.
 
-  Definition has_inst_p (st : symtab) (t : fty) : Prop :=
-    match t with FI64 => True | FDecl n a => ahas (st_types st) (n ++ print_targs a)%string = true end.
 
   (* well-formed types have identifier-like names *)
   Lemma wf_ty_names_ok : forall t, wf_ty ts t = true -> ty_names_ok t = true.
@@ -353,12 +354,12 @@ Section Poly.
 
   (* ---------- create_instance ---------- *)
   Lemma create_instance_spec : forall st td targs st',
-    tables ts fs st -> pinv st -> In td ts -> targs_ok td targs ->
+    tables ts fs st -> pinv st -> In td ts -> targs_ok td targs -> Forall (has_inst_p st) targs ->
     create_instance_tail (td_name td ++ print_targs targs)%string targs (td_pol td) (td_params td)
       (map xs_name (td_xtors td)) st = COk st' ->
     pinv st' /\ same_templates st st' /\ grows st st' /\ ahas (st_types st') (td_name td ++ print_targs targs)%string = true.
   Proof.
-    intros st td targs st' T I Htd Hok H. unfold create_instance_tail in H.
+    intros st td targs st' T I Htd Hok Hta H. unfold create_instance_tail in H.
     apply cbind_ok in H. destruct H as [st1 [H1 H]]. inversion H; subst st'. clear H.
     fold (sub_of td targs) in H1.
     assert (Hgrow : forall n, ahas (ainsert (st_types st1) (td_name td ++ print_targs targs)%string
@@ -387,6 +388,15 @@ Section Poly.
           -- inversion Hg; subst. apply Hx. assumption.
           -- rewrite Ety in Hg. pose proof (pi_xtors_of _ I _ _ _ _ _ Hg Hin) as Hp.
              destruct pol; [apply Hm; assumption|rewrite Ed; assumption].
+        * intros key pol targs0 xs Hg. rewrite aget_ainsert in Hg.
+          assert (Hgr : grows st (set_types st1 (ainsert (st_types st1) (td_name td ++ print_targs targs)%string
+                                   (FData, targs, map xs_name (td_xtors td))))).
+          { intros n Hn. simpl. unfold ahas in *. rewrite aget_ainsert.
+            destruct (String.eqb (td_name td ++ print_targs targs)%string n); [reflexivity|]. rewrite Ety. exact Hn. }
+          destruct (String.eqb (td_name td ++ print_targs targs)%string key) eqn:E.
+          -- inversion Hg; subst. eapply Forall_impl; [|exact Hta]. intros a Ha. eapply has_inst_grows; eassumption.
+          -- rewrite Ety in Hg. eapply Forall_impl; [|exact (pi_targs _ I _ _ _ _ Hg)].
+             intros a Ha. eapply has_inst_grows; eassumption.
         * apply NoDup_keys_ainsert. rewrite Ety. apply (pi_nodup _ I).
       + destruct S as [? [? [? ?]]]. repeat split; assumption.
       + intros n Hn. simpl. apply Hgrow. right. rewrite Ety. assumption.
@@ -409,6 +419,15 @@ Section Poly.
           -- inversion Hg; subst. apply Hx. assumption.
           -- rewrite Ety in Hg. pose proof (pi_xtors_of _ I _ _ _ _ _ Hg Hin) as Hp.
              destruct pol; [rewrite Ed; assumption|apply Hm; assumption].
+        * intros key pol targs0 xs Hg. rewrite aget_ainsert in Hg.
+          assert (Hgr : grows st (set_types st1 (ainsert (st_types st1) (td_name td ++ print_targs targs)%string
+                                   (FCodata, targs, map xs_name (td_xtors td))))).
+          { intros n Hn. simpl. unfold ahas in *. rewrite aget_ainsert.
+            destruct (String.eqb (td_name td ++ print_targs targs)%string n); [reflexivity|]. rewrite Ety. exact Hn. }
+          destruct (String.eqb (td_name td ++ print_targs targs)%string key) eqn:E.
+          -- inversion Hg; subst. eapply Forall_impl; [|exact Hta]. intros a Ha. eapply has_inst_grows; eassumption.
+          -- rewrite Ety in Hg. eapply Forall_impl; [|exact (pi_targs _ I _ _ _ _ Hg)].
+             intros a Ha. eapply has_inst_grows; eassumption.
         * apply NoDup_keys_ainsert. rewrite Ety. apply (pi_nodup _ I).
       + destruct S as [? [? [? ?]]]. repeat split; assumption.
       + intros n Hn. simpl. apply Hgrow. right. rewrite Ety. assumption.
@@ -433,15 +452,16 @@ Section Poly.
 
   Lemma tys_check_sound : forall l, Forall ty_sound_at l ->
     forall st st', tys_names_ok l = true -> tables ts fs st -> pinv st -> tys_check l st = COk st' ->
-      forallb (wf_ty ts) l = true /\ pinv st' /\ same_templates st st' /\ grows st st'.
+      forallb (wf_ty ts) l = true /\ pinv st' /\ same_templates st st' /\ grows st st' /\ Forall (has_inst_p st') l.
   Proof.
     intros l HF. induction HF as [|a r Ha _ IH]; intros st st' N T I H; simpl in H.
-    - inversion H; subst. simpl. auto using same_templates_refl, grows_refl.
+    - inversion H; subst. simpl. auto 10 using same_templates_refl, grows_refl.
     - simpl in N. apply andb_true_iff in N. destruct N as [Na Nr].
       apply cbind_ok in H. destruct H as [st1 [H1 H]].
-      destruct (Ha st st1 Na T I H1) as [Hw [I1 [S1 [G1 _]]]].
-      destruct (IH st1 st' Nr (tables_same _ _ _ _ T S1) I1 H) as [Hwr [I2 [S2 G2]]].
+      destruct (Ha st st1 Na T I H1) as [Hw [I1 [S1 [G1 Hi1]]]].
+      destruct (IH st1 st' Nr (tables_same _ _ _ _ T S1) I1 H) as [Hwr [I2 [S2 [G2 Hi2]]]].
       simpl. rewrite Hw, Hwr. splits; eauto using same_templates_trans, grows_trans.
+      constructor; [eapply has_inst_grows; eassumption|assumption].
   Qed.
 
   Theorem ty_check_sound_all : forall t, ty_sound_at t.
@@ -464,9 +484,9 @@ Section Poly.
         destruct (Nat.eqb (List.length args) (List.length params)) eqn:El; [|discriminate]. simpl in Hc.
         apply PeanoNat.Nat.eqb_eq in El.
         apply cbind_ok in Hc. destruct Hc as [st1 [H1 Hc]].
-        destruct (tys_check_sound args H st st1 Na T I H1) as [Hwf [I1 [S1 G1]]].
+        destruct (tys_check_sound args H st st1 Na T I H1) as [Hwf [I1 [S1 [G1 Hta]]]].
         subst n pol params xtors.
-        destruct (create_instance_spec st1 td args st' (tables_same _ _ _ _ T S1) I1 Htd (conj El Hwf) Hc)
+        destruct (create_instance_spec st1 td args st' (tables_same _ _ _ _ T S1) I1 Htd (conj El Hwf) Hta Hc)
           as [I2 [S2 [G2 Hh]]].
         splits; eauto using same_templates_trans, grows_trans.
         simpl. rewrite Hf, El, PeanoNat.Nat.eqb_refl. simpl. exact Hwf.
